@@ -684,6 +684,23 @@ public:
 
   void outputToDot(std::ostream& out, const std::string& name) const;
 
+private:
+  /**
+   * The row of an existing node in the node structure, for the iterators on
+   * the neighbors of a node: throws if the node does not exist.
+   */
+  const nodeStructureType::mapped_type& rowOf_(const Node& node) const
+  {
+    nodeMustExist_(node, "node to iterate on");
+    return nodeStructure_.find(node)->second;
+  }
+
+  nodeStructureType::mapped_type& rowOf_(const Node& node)
+  {
+    nodeMustExist_(node, "node to iterate on");
+    return nodeStructure_.find(node)->second;
+  }
+
   template<class N, class E, class GraphImpl>
   friend class AssociationGraphImplObserver;
 };
@@ -794,9 +811,9 @@ class NodesIteratorClass<Graph::OUTGOINGNEIGHBORITER, is_const> :
   virtual public Graph::NodeIterator
 {
 public:
-  NodesIteratorClass<Graph::OUTGOINGNEIGHBORITER, is_const>(const GlobalGraph& gg, GlobalGraph::NodeId node) : NeighborIteratorClass<is_const>(gg.nodeStructure_.find(node)->second.first) {}
+  NodesIteratorClass<Graph::OUTGOINGNEIGHBORITER, is_const>(const GlobalGraph& gg, GlobalGraph::NodeId node) : NeighborIteratorClass<is_const>(gg.rowOf_(node).first) {}
 
-  NodesIteratorClass<Graph::OUTGOINGNEIGHBORITER, is_const>(GlobalGraph& gg, GlobalGraph::NodeId node) : NeighborIteratorClass<is_const>(gg.nodeStructure_.find(node)->second.first) {}
+  NodesIteratorClass<Graph::OUTGOINGNEIGHBORITER, is_const>(GlobalGraph& gg, GlobalGraph::NodeId node) : NeighborIteratorClass<is_const>(gg.rowOf_(node).first) {}
 
   ~NodesIteratorClass<Graph::OUTGOINGNEIGHBORITER, is_const>(){}
 
@@ -814,9 +831,9 @@ class NodesIteratorClass<Graph::INCOMINGNEIGHBORITER, is_const> :
   virtual public Graph::NodeIterator
 {
 public:
-  NodesIteratorClass<Graph::INCOMINGNEIGHBORITER, is_const>(const GlobalGraph& gg, GlobalGraph::NodeId node) : NeighborIteratorClass<is_const>(gg.nodeStructure_.find(node)->second.second) {}
+  NodesIteratorClass<Graph::INCOMINGNEIGHBORITER, is_const>(const GlobalGraph& gg, GlobalGraph::NodeId node) : NeighborIteratorClass<is_const>(gg.rowOf_(node).second) {}
 
-  NodesIteratorClass<Graph::INCOMINGNEIGHBORITER, is_const>(GlobalGraph& gg, GlobalGraph::NodeId node) : NeighborIteratorClass<is_const>(gg.nodeStructure_.find(node)->second.second) {}
+  NodesIteratorClass<Graph::INCOMINGNEIGHBORITER, is_const>(GlobalGraph& gg, GlobalGraph::NodeId node) : NeighborIteratorClass<is_const>(gg.rowOf_(node).second) {}
 
   ~NodesIteratorClass<Graph::INCOMINGNEIGHBORITER, is_const>(){}
 
@@ -875,9 +892,9 @@ class EdgesIteratorClass<Graph::OUTGOINGNEIGHBORITER, is_const> :
   public Graph::EdgeIterator
 {
 public:
-  EdgesIteratorClass<Graph::OUTGOINGNEIGHBORITER, is_const>(const GlobalGraph& gg, GlobalGraph::NodeId node) : NeighborIteratorClass<is_const>(gg.nodeStructure_.find(node)->second.first) {}
+  EdgesIteratorClass<Graph::OUTGOINGNEIGHBORITER, is_const>(const GlobalGraph& gg, GlobalGraph::NodeId node) : NeighborIteratorClass<is_const>(gg.rowOf_(node).first) {}
 
-  EdgesIteratorClass<Graph::OUTGOINGNEIGHBORITER, is_const>(GlobalGraph& gg, GlobalGraph::NodeId node) : NeighborIteratorClass<is_const>(gg.nodeStructure_.find(node)->second.first) {}
+  EdgesIteratorClass<Graph::OUTGOINGNEIGHBORITER, is_const>(GlobalGraph& gg, GlobalGraph::NodeId node) : NeighborIteratorClass<is_const>(gg.rowOf_(node).first) {}
 
   ~EdgesIteratorClass<Graph::OUTGOINGNEIGHBORITER, is_const>(){}
 
@@ -894,9 +911,9 @@ class EdgesIteratorClass<Graph::INCOMINGNEIGHBORITER, is_const> :
   public Graph::EdgeIterator
 {
 public:
-  EdgesIteratorClass<Graph::INCOMINGNEIGHBORITER, is_const>(const GlobalGraph& gg, GlobalGraph::NodeId node) : NeighborIteratorClass<is_const>(gg.nodeStructure_.find(node)->second.second) {}
+  EdgesIteratorClass<Graph::INCOMINGNEIGHBORITER, is_const>(const GlobalGraph& gg, GlobalGraph::NodeId node) : NeighborIteratorClass<is_const>(gg.rowOf_(node).second) {}
 
-  EdgesIteratorClass<Graph::INCOMINGNEIGHBORITER, is_const>(GlobalGraph& gg, GlobalGraph::NodeId node) : NeighborIteratorClass<is_const>(gg.nodeStructure_.find(node)->second.second) {}
+  EdgesIteratorClass<Graph::INCOMINGNEIGHBORITER, is_const>(GlobalGraph& gg, GlobalGraph::NodeId node) : NeighborIteratorClass<is_const>(gg.rowOf_(node).second) {}
 
   ~EdgesIteratorClass<Graph::INCOMINGNEIGHBORITER, is_const>(){}
 
